@@ -14,7 +14,7 @@ use std::time::Duration;
 
 pub static PROP: Prop = Prop {
     id: "C08",
-    rule: "cases: histories of 2-14 steps, each in a fresh child process over 1-2 persistent threads: register_function / register_prefix_op / register_postfix_op / register_infix_op(name, precedence, associativity) with handlers that return List[id, operands...] (a quarter of the function handlers also (re-)register a function when they run - possibly the one whose call they are an argument of); names are fresh words, re-registrations of earlier names and built-in names (min, sum, +, - prefix, ++, in, &&) - also as the very first engine call of the process; symbolic operators only as one-character extensions of existing operators; precedences from {1, 2, 19, 20, 21, 39..41, 59..61, 109..111, 119..121, 199..201, 10^9-1, 10^9} and uniform 1..=10^9 (an operator on an existing level takes that level's associativity); parse(text) and exec(text, context) steps with flat programs generated over the CURRENT operator table that use the registered names often; contexts that shadow a global function with a context function, bind the same name as a variable, or leave it unbound. Oracle: a model registry updated per step (insert semantics); parse => reference parser parameterised by the model table; exec => reference evaluator whose handlers return List[id, args...], call dispatch = context function, else global, else error. Plus pairs of operators at 999 999 999 / 10^9, 6*10^8 / 9*10^8 and around 2^29, held-initialisation scenarios in which built-ins are overridden while another thread's first use is parked mid-initialisation, and the exhaustive adjacent-precedence table: a new operator at p in {q-1, q, q+1} x {LEFT, RIGHT where allowed} on either side of each of the 11 built-in levels q. Non-trivial: a re-registration, built-in override or context shadow that is subsequently used, or an operator whose precedence differs by exactly 1 from another operator used in the same text; distinct by (step-kind sequence, relative precedence pattern).",
+    rule: "cases: histories of 2-14 steps, each in a fresh child process over 1-2 persistent threads: register_function / register_prefix_op / register_postfix_op / register_infix_op(name, precedence, associativity) with handlers that return List[id, operands...] (a quarter of the function handlers also (re-)register a function when they run - possibly the one whose call they are an argument of; one infix registration in ten - two in three when it overrides an assignment operator - is of kind SETTER: the handler's value is bound to the left operand's name); names are fresh words (identifiers and spellings that are none: is-not, ~=, @@, не, enthält, divisible-by, содержит, größer_als), re-registrations of earlier names and built-in names (min, sum, +, - prefix, ++, in, &&) - also as the very first engine call of the process; symbolic operators only as one-character extensions of existing operators or of the conditional's marks (`:=`, `??`, `?:`); precedences from {1, 2, 19, 20, 21, 39..41, 59..61, 109..111, 119..121, 199..201, 10^9-1, 10^9} and uniform 1..=10^9 (an operator on an existing level takes that level's associativity); parse(text) and exec(text, context) steps with flat programs generated over the CURRENT operator table that use the registered names often; contexts that shadow a global function with a context function, bind the same name as a variable, or leave it unbound. Oracle: a model registry updated per step (insert semantics); parse => reference parser parameterised by the model table; exec => reference evaluator whose handlers return List[id, args...], call dispatch = context function, else global, else error. Plus pairs of operators at 999 999 999 / 10^9, 6*10^8 / 9*10^8 and around 2^29, held-initialisation scenarios in which built-ins are overridden while another thread's first use is parked mid-initialisation, free-running races in which a function / prefix / infix / postfix operator is re-registered thousands of times while 2-4 threads evaluate a program that uses it once (every evaluation must dispatch to one of the two handlers), a fixed table of SETTER overrides of `=`, `+=`, `|=` and a new word, and the exhaustive adjacent-precedence table: a new operator at p in {q-1, q, q+1} x {LEFT, RIGHT where allowed} on either side of each of the 11 built-in levels q. Non-trivial: a re-registration, built-in override or context shadow that is subsequently used, or an operator whose precedence differs by exactly 1 from another operator used in the same text; distinct by (step-kind sequence, relative precedence pattern).",
     assumptions: &[
         "an operator registered at an existing precedence level is given that level's associativity (mixed associativity on one level is undocumented)",
         "one spelling is not registered both as postfix and as prefix/infix operator (undocumented)",
@@ -130,6 +130,8 @@ struct Reg {
     prefix: BTreeMap<String, u32>,
     infix: BTreeMap<String, u32>,
     postfix: BTreeMap<String, u32>,
+    /// infix operators registered with the SETTER type
+    setters: std::collections::BTreeSet<String>,
     side_effects: BTreeMap<u32, (String, u32)>,
 }
 
@@ -141,6 +143,7 @@ impl Reg {
             prefix: BTreeMap::new(),
             infix: BTreeMap::new(),
             postfix: BTreeMap::new(),
+            setters: std::collections::BTreeSet::new(),
             side_effects: BTreeMap::new(),
         }
     }
@@ -154,7 +157,11 @@ impl Reg {
             m.loggers.prefix.insert(k.clone(), (*id, V::None));
         }
         for (k, id) in &self.infix {
-            m.loggers.infix.insert(k.clone(), (*id, V::None));
+            if self.setters.contains(k) {
+                m.loggers.setters.insert(k.clone(), (*id, V::None));
+            } else {
+                m.loggers.infix.insert(k.clone(), (*id, V::None));
+            }
         }
         for (k, id) in &self.postfix {
             m.loggers.postfix.insert(k.clone(), (*id, V::None));
@@ -183,6 +190,11 @@ impl Reg {
                 match sp["kind"].as_str().unwrap_or("") {
                     "infix" => {
                         self.tab.infix.insert(name.clone(), (sp["prec"].as_i64().unwrap_or(1), sp["right"].as_bool().unwrap_or(false)));
+                        if sp["setter"].as_bool().unwrap_or(false) {
+                            self.setters.insert(name.clone());
+                        } else {
+                            self.setters.remove(&name);
+                        }
                         self.infix.insert(name, id);
                     }
                     "prefix" => {
@@ -201,7 +213,9 @@ impl Reg {
 }
 
 const PRECS: [i64; 22] = [1, 2, 19, 20, 21, 39, 40, 41, 59, 60, 61, 109, 110, 111, 119, 120, 121, 199, 200, 201, 999_999_999, 1_000_000_000];
-const WORDS: [&str; 10] = ["hi", "lo", "xor", "mod", "plus", "w_1", "Then", "isnt", "nand", "up"];
+const WORDS: [&str; 19] = [
+    "hi", "lo", "xor", "mod", "plus", "w_1", "Then", "isnt", "nand", "up", "is-not", "~=", "@@", "не", "enthält", "divisible-by", "содержит", "größer_als", "не-входит-в",
+];
 const FN_NAMES: [&str; 8] = ["fa", "fb", "fc", "min", "sum", "max", "mul", "f.x"];
 
 fn level_assoc(tab: &OpTable, prec: i64) -> Option<bool> {
@@ -240,6 +254,9 @@ fn gen_reg_step(src: &mut Src, reg: &Reg, id: u32, thread: usize) -> J {
                     syms.extend(reg.tab.prefix.iter().cloned());
                     syms.extend(reg.tab.postfix.iter().cloned());
                     syms.retain(|o| o.chars().all(|c| SPECIAL.contains(c)));
+                    // the marks of the conditional are operator characters like any other: `:=`, `??`
+                    syms.push("?".to_string());
+                    syms.push(":".to_string());
                     pool = syms;
                     let base = src.choose(&pool).clone();
                     format!("{}{}", base, SPECIAL.chars().nth(src.pick(14)).unwrap())
@@ -257,7 +274,10 @@ fn gen_reg_step(src: &mut Src, reg: &Reg, id: u32, thread: usize) -> J {
             let right = level_assoc(&reg.tab, prec).unwrap_or_else(|| src.chance(1, 2));
             // re-registering an operator on its own level: keep the level's associativity, but the
             // operator's own old entry does not count as "the level" if it is alone there
-            json!({"op": "reg_op", "spec": {"kind": kind, "name": name, "prec": prec, "right": right}, "id": id, "thread": thread})
+            // an infix operator may be registered with the SETTER type (also over a built-in
+            // assignment operator): `x op e` then binds x to the handler's result
+            let setter = kind == "infix" && (crate::model::is_assign(&name) && src.chance(2, 3) || src.chance(1, 10));
+            json!({"op": "reg_op", "spec": {"kind": kind, "name": name, "prec": prec, "right": right, "setter": setter}, "id": id, "thread": thread})
         }
     }
 }
@@ -553,6 +573,20 @@ fn fixed(env: &Env, st: &mut Stats) -> CaseResult {
             run_history(1, &steps, env, st)?;
         }
     }
+    // built-in assignment operators replaced by SETTER-typed handlers must be used for every
+    // later assignment
+    for (k, name) in ["=", "+=", "|=", "becomes"].iter().enumerate() {
+        if env.mine(600 + k as u64) {
+            st.hist("setter-override-table");
+            st.nontrivial(&format!("setter:{}", name));
+            let steps = vec![
+                json!({"op": "reg_op", "spec": {"kind": "infix", "name": name, "prec": 20, "right": true, "setter": true}, "id": 91, "thread": 0}),
+                json!({"op": "exec", "text": format!("x {} 5 ; x", name), "ctx": {"x": {"var": V::int(1).to_json()}}, "thread": 0}),
+                json!({"op": "exec", "text": format!("y {} 2 ; z = y ; [ y , z ]", name), "ctx": {}, "thread": 0}),
+            ];
+            run_history(1, &steps, env, st)?;
+        }
+    }
     // distinct precedences near the top of the allowed range must stay distinct
     for (lo, hi) in [(999_999_999i64, 1_000_000_000i64), (600_000_000, 900_000_000), (536_870_911, 536_870_912), (536_870_912, 536_870_913), (1_000_000, 1_000_001)] {
         for (rl, rh) in [(false, false), (true, true), (false, true)] {
@@ -615,11 +649,31 @@ fn fixed(env: &Env, st: &mut Stats) -> CaseResult {
             })?;
         }
     }
+    // ... and while another thread keeps re-registering the name: a name that was registered
+    // before, during and after an evaluation always dispatches to one of its handlers (a single
+    // use per program, so the known torn-registration finding of C13 cannot occur)
+    for kind in ["function", "prefix", "infix", "postfix"] {
+        for threads in [2usize, 4] {
+            i += 1;
+            if !env.mine(i) {
+                continue;
+            }
+            st.hist("evaluation-during-re-registration");
+            crate::props::c13::run_regrace(kind, 0, threads, env.tier.pick(3_000, 60_000), false, env, st).map_err(|mut f| {
+                f.detail = format!("(re-registration race, replay with ./check C13 --replay) {}", f.detail);
+                f
+            })?;
+        }
+    }
     st.set_extra("exhaustive_adjacent_precedence_table", json!(true));
     Ok(())
 }
 
 fn replay(case: &J, st: &mut Stats, env: &Env) -> CaseResult {
+    if case.get("mode").is_some() {
+        // a held-initialisation or re-registration scenario borrowed from C13
+        return crate::props::c13::replay(case, st, env);
+    }
     let steps: Vec<J> = case["steps"].as_array().cloned().unwrap_or_default();
     run_history(case["threads"].as_u64().unwrap_or(1) as usize, &steps, env, st)
 }
